@@ -30,7 +30,7 @@ def load(prop):
     return mod.MUTANTS
 
 
-def run_one(prop, m, tier, extra):
+def run_one(prop, m, tier, extra, do_harvest=False):
     scratch = f"/tmp/mut_{prop}_{m['name']}_{os.getpid()}"
     shutil.rmtree(scratch, ignore_errors=True)
     shutil.copytree("/repo/src", os.path.join(scratch, "src"))
@@ -52,7 +52,15 @@ def run_one(prop, m, tier, extra):
         status = "CAUGHT" if cp.returncode == 1 and "VIOLATION property=" in cp.stdout else ("HARNESS-ERROR" if cp.returncode == 2 else "MISSED")
         if status == "HARNESS-ERROR":
             sys.stderr.write(cp.stdout[-2000:] + cp.stderr[-2000:])
-        return {"name": m["name"], "status": status, "rc": cp.returncode, "wall_s": round(wall, 1), "first": (viol[0][:300] if viol else ""), "note": m.get("note", "")}
+        res = {"name": m["name"], "status": status, "rc": cp.returncode, "wall_s": round(wall, 1), "first": (viol[0][:300] if viol else ""), "note": m.get("note", "")}
+        if do_harvest and status == "CAUGHT":
+            sys.path.insert(0, os.path.join(ROOT, "tools"))
+            from seeded import harvest
+
+            reps = [l.split("replay=", 1)[1].strip() for l in cp.stdout.splitlines() if l.startswith("VIOLATION property=") and "replay=" in l]
+            res["corpus"] = harvest(m["name"], prop, os.path.join(scratch, "src"), reps, limit=1, prefix="mut",
+                                    origin=f"shrunk reproduction of the deliberate breakage tools/mutants/{prop}.py:{m['name']} (must hold on a correct tree)")
+        return res
     finally:
         shutil.rmtree(scratch, ignore_errors=True)
 
@@ -65,6 +73,7 @@ def main():
     ap.add_argument("--list", action="store_true")
     ap.add_argument("--only", default=None)
     ap.add_argument("--keep-evidence", action="store_true")
+    ap.add_argument("--harvest", action="store_true", help="store one shrunk reproduction per caught mutant under corpus/<prop>/mut-<name>.json")
     args = ap.parse_args()
     muts = load(args.prop)
     if args.list:
@@ -78,7 +87,7 @@ def main():
     for m in muts:
         if args.name and m["name"] != args.name:
             continue
-        r = run_one(args.prop, m, args.tier, extra)
+        r = run_one(args.prop, m, args.tier, extra, args.harvest)
         print(f"{args.prop} {r['name']:<32} {r['status']:<10} {r.get('wall_s', '')}s  {r.get('first', '')[:160]}")
         results.append(r)
     # a mutant run rewrites the evidence file: restore the genuine one
@@ -91,7 +100,7 @@ def main():
     data = json.load(open(out)) if os.path.exists(out) else {}
     cur = data.setdefault(args.prop, {})
     for r in results:
-        cur[r["name"]] = {k: r[k] for k in ("status", "wall_s", "first", "note") if k in r}
+        cur[r["name"]] = {k: r[k] for k in ("status", "wall_s", "first", "note", "corpus") if k in r}
     json.dump(data, open(out, "w"), indent=1, sort_keys=True)
 
 
